@@ -63,6 +63,46 @@ def split (B : Nat) (p : Perfs) (payload : Bytes) : List (Bytes × Bytes) :=
     (p.p1, payload.take k1) :: mids.map (fun c => (p.p2, c)) ++ [(p.p3, rest)]
   else [(p.p0, payload)]
 
+/-! ## the session engine's cut (`frames::amqp::split_transfer`)
+
+The session engine cuts an outgoing transfer to the frame size *before* the
+session numbers it, so that every frame on the wire is one session transfer. -/
+
+/-- which performative a piece carries -/
+inductive SKind where
+  | whole   -- the transfer as given
+  | first   -- as given with `more := true`
+  | cont    -- continuation fields only, `more := true`
+  | last    -- continuation fields only, `more := orig_more`
+deriving Repr, DecidableEq
+
+/-- `encoded_len` of the three performatives measured by `split_transfer`
+    (a delivery-tag without delivery-id is measured with the widest id) -/
+structure SLens where
+  whole : Nat
+  first : Nat
+  rest  : Nat
+deriving Repr
+
+/-- the `while rest_len + payload.len() > max_frame_body_size` loop (fuel = bytes left) -/
+def sMiddle (B restLen : Nat) : Nat → Bytes → List Bytes × Bytes
+  | 0, rest => ([], rest)
+  | fuel + 1, rest =>
+    if split_transfer.cond_while_0 B rest.length restLen then
+      let k := split_transfer.arg_split_to_1 B restLen
+      let (cs, r) := sMiddle B restLen fuel (rest.drop k)
+      (rest.take k :: cs, r)
+    else ([], rest)
+
+/-- `split_transfer(transfer, payload, B)`: kind and payload of every piece, in order -/
+def sessionSplit (B : Nat) (l : SLens) (payload : Bytes) : List (SKind × Bytes) :=
+  if split_transfer.cond_if_1 B payload.length l.whole then [(.whole, payload)]
+  else if split_transfer.cond_if_2 l.first B l.rest then [(.whole, payload)]
+  else
+    let k := split_transfer.arg_split_to_0 l.first B payload.length
+    let (mids, rest) := sMiddle B l.rest payload.length (payload.drop k)
+    (.first, payload.take k) :: mids.map (fun c => (SKind.cont, c)) ++ [(.last, rest)]
+
 /-- the frames written to the buffer, in order (without length prefixes) -/
 def encodeTransfer (B : Nat) (channel : Nat) (p : Perfs) (payload : Bytes) : List Bytes :=
   (split B p payload).map (fun qc => header channel ++ qc.1 ++ qc.2)
